@@ -1514,7 +1514,19 @@ class GList(Sym):
     def sym_method(self, I, name, args, kw):
         if name == "append":
             g = I.current_guard()
-            self.items.append((g, args[0]))
+            v = args[0]
+            if self.items and g is not True:
+                # "append x unless it is already there", executed once per candidate: consecutive entries for the SAME
+                # value whose guards exclude each other are one list position (present iff either guard holds).
+                # Merging keeps the guards linear in size; it is order-preserving because the entries are adjacent,
+                # and it is only done when the solver proves the two guards exclusive on this path.
+                g0, v0 = self.items[-1]
+                if g0 is not True and is_plain(v0) and is_plain(v) and type(v0) is type(v) and v0 == v:
+                    both_ = b_and(g0, g)
+                    if both_ is False or (isinstance(both_, SymBool) and not I.ctx.feasible(both_.e)):
+                        self.items[-1] = (b_or(g0, g), v0)
+                        return None
+            self.items.append((g, v))
             return None
         return call_native_method(I, self.sym_iter(I), name, args, kw)
 
